@@ -38,7 +38,7 @@ var c05Backoffs = [][2]time.Duration{{5 * time.Millisecond, 10 * time.Millisecon
 func (c05) Plan(tier string, seed int64) []core.Scenario {
 	var out []core.Scenario
 	ks := []int{0, 1, 3, 10, 40, 150}
-	rng := core.Scenario{Seed: seed}.Rand()
+	_ = seed
 	add := func(s core.Scenario) {
 		s.Seed = seed*104729 + int64(len(out))
 		out = append(out, s)
@@ -51,7 +51,7 @@ func (c05) Plan(tier string, seed int64) []core.Scenario {
 				}
 				for mapping := 0; mapping < 2; mapping++ {
 					for second := 0; second < 2; second++ {
-						s := core.Sc("outage").WithN("k", k).WithN("fk", fk).WithN("b", b).WithN("map", mapping).WithN("second", second)
+						s := core.Sc("outage").WithN("k", k).WithN("fk", fk).WithN("b", b).WithN("map", mapping).WithN("second", second).WithN("t0", (ki+fk+second)%2)
 						if tier == "thorough" || (ki+fk+b+mapping+second+int(seed))%4 == 0 || (k == 150 && fk == 1 && mapping == 0 && second == 0) {
 							add(s)
 						}
@@ -65,7 +65,7 @@ func (c05) Plan(tier string, seed int64) []core.Scenario {
 		nr = 60
 	}
 	for i := 0; i < nr; i++ {
-		add(core.Sc("noreconnect").WithN("fk", i%len(faultKinds)).WithN("map", (i/3)%2).WithN("b", rng.Intn(3)))
+		add(core.Sc("noreconnect").WithN("fk", i%len(faultKinds)).WithN("map", (i/3)%2).WithN("b", i%3))
 	}
 	nbr := 4
 	if tier == "thorough" {
@@ -128,6 +128,8 @@ func (c05) outage(sc core.Scenario, r *core.R) {
 	opts := []jsonrpc.Option{jsonrpc.WithReconnectBackoff(bo[0], bo[1])}
 	if kind == wsproxy.BLACKHOLE || idle {
 		opts = append(opts, jsonrpc.WithPingInterval(40*time.Millisecond), jsonrpc.WithTimeout(400*time.Millisecond))
+	} else if sc.I("t0") == 1 {
+		opts = append(opts, jsonrpc.WithTimeout(0)) // idle timeout disabled: losses are still noticed through FIN/RST
 	}
 	if mapping {
 		opts = append(opts, jsonrpc.WithErrors(jsonrpc.NewErrors()))
@@ -375,6 +377,12 @@ func (c05) noReconnect(sc core.Scenario, r *core.R) {
 	pol := &core.Policy{Seed: sc.Seed}
 	defer pol.Install()()
 	opts := []jsonrpc.Option{jsonrpc.WithNoReconnect(), jsonrpc.WithPingInterval(40 * time.Millisecond), jsonrpc.WithTimeout(400 * time.Millisecond)}
+	switch sc.I("b") { // the no-reconnect option combined with a back-off option, in either order
+	case 1:
+		opts = append(opts, jsonrpc.WithReconnectBackoff(5*time.Millisecond, 20*time.Millisecond))
+	case 2:
+		opts = append([]jsonrpc.Option{jsonrpc.WithReconnectBackoff(5*time.Millisecond, 20*time.Millisecond)}, opts...)
+	}
 	if mapping {
 		opts = append(opts, jsonrpc.WithErrors(jsonrpc.NewErrors()))
 	}
@@ -412,7 +420,7 @@ func (c05) noReconnect(sc core.Scenario, r *core.R) {
 	if d := core.Log.Count("ws.reconn.dial"); d > 0 || env.Px.Accepts() != acc {
 		r.Violate("noreconnect-redial", "no-reconnect client redialled: dial hook fired %d times, proxy accepts +%d", d, env.Px.Accepts()-acc)
 	}
-	r.Key(fmt.Sprintf("noreconnect %s map=%v", kind, mapping), lossSeen)
+	r.Key(fmt.Sprintf("noreconnect %s map=%v backoffopt=%d", kind, mapping, sc.I("b")), lossSeen)
 	r.Obs("noreconnect_losses", 1)
 	r.Sample(map[string]interface{}{"no_reconnect": true, "fault": kind, "accepts_after_loss": env.Px.Accepts() - acc})
 }
